@@ -216,10 +216,29 @@ reg("C05", ["c05_history.c"],
     assumptions=["typed set / bit operations on registers in areas flagged read-only (write callback present): the "
                  "statements do not rule; either outcome is accepted as long as its effect is consistent"])
 
+reg("C06", ["c06_regp_exec.c"],
+    rule="'session': 8 sessions per unit of 1-50 frames on one RegP in server role (serial or TCP, 8- or 16-bit "
+         "memory, allocator block 128/200/300/360): read and write requests in 8/16-bit semantics (1/6 with the "
+         "wrong word size), block sizes 0..capacity with the edges favoured, payloads rich in SLIP control octets, "
+         "addresses incl. c0/db patterns, sequence numbers incl. the wrap, interleaved with responses of every code "
+         "and meta frames; the scripted backend answers with each of the 12 response codes and an address. Frames come "
+         "from the reference encoder, replies go through the reference decoder. 'table': the server bound to a real "
+         "register table (RW area with range/max/float registers, read-only area, callback area reporting I/O errors; "
+         "also uninitialised) through regaccess2blockaccess; the expected verdict comes from calling the register API "
+         "directly on the same state. A signature is a (unit, session); evaluations counts frames processed.")
+
 SAN_NOTE = ("Trusted: gcc 12 ASan/UBSan runtime, the harness' reference model, the fork-per-unit runner. "
             "Assumes little-endian x86-64; decides only the executions listed in the evidence file.")
 
 MANIFEST_TEXT = {
+    "C06": dict(
+        technique="runtime monitoring: event-log pairing (request <-> backend call <-> response) over generated sessions; frames from an independent reference encoder, replies through an independent reference decoder; allocator ledger; ASan/UBSan",
+        text="Every request of every session must show up as exactly one backend call with the same address, size and "
+             "payload octets and exactly one response that the reference decoder accepts and that echoes sequence "
+             "number and address with the code prescribed for the backend's verdict (payload per section 3.1 of the "
+             "protocol document, octet semantics); wrong word size, responses and meta frames must leave the backend "
+             "untouched. The frame block ledger must balance after every step.",
+        note=SAN_NOTE),
     "C05": dict(
         technique="runtime monitoring: random operation histories with a reference model carried along and compared after every step (image, values, touched marks) plus an explicit invariant assertion by the model's own decoder/evaluator; out-of-band corruption + sanitise rounds; ASan/UBSan",
         text="The invariant is asserted by an independent evaluator after every one of several hundred thousand steps, "
